@@ -289,3 +289,327 @@ c                             2;
   parse_string true [] 7 (foam_to_string_plain d) =
     Ok (mkParsed (mkSD [(c10_K "b", Leaf (SInt 1)); (c10_K "c", Leaf (SInt 2))] [] [] [] []) 8).
 Proof. vm_compute. repeat split; reflexivity. Qed.
+
+(* ================================================================================================== *)
+(* added from Properties/C10_add.v (2026-10-01)                                              *)
+(* ================================================================================================== *)
+(* C10 (additions): the SDict route of the Foam writer -- banner and FoamFile block, literals, round trip. *)
+From Coq Require Import String.   (* string literals of the examples; imported first so the list names win *)
+From Coq Require Import NArith ZArith List Bool.
+From DictIO Require Import Chars Str Value Scalar KeyPath SDict Layout Lexer TokParser TreeSpec NativeSpec QuoteProofs.
+From DictIO Require Import E2ESpec E2EProofs E2EHoles E2EFullProofs FoamProofs RereadStr RereadTree FoamSdProofs.
+Import ListNotations.
+
+(* Vocabulary (FoamSdProofs):
+     foam_banner / foam_file_block / foam_rule   the three pieces of the default header Layout.foam_header: the OpenFOAM
+                                   banner (one block comment of seven lines), the text of the FoamFile dict, the rule line
+                                   (a line comment);  C10_foam_header_pieces
+     foam_file_dict                the FoamFile dict as data: version 2.0, format ascii, class dictionary, object foamDict
+     sd_foam_body s                the body FoamFormatter lays out for s (underscore keys removed, placeholders still in)
+     own_foam_header bc            bc carries the C++ mark AND the word OpenFOAM: it counts as the file's own header
+     bph i / lph i (RereadTree)    the placeholder names BLOCKCOMMENTiiiiii / LINECOMMENTiiiiii
+     hdr_mid n                     what is left of the header once the lexer has lifted the banner and the rule out:
+                                   BLOCKCOMMENT000000, the FoamFile block, LINECOMMENTnnnnnn (each on its line)
+     sd_reread_data n kvs          [BLOCKCOMMENT000000 entry; FoamFile -> foam_file_dict; LINECOMMENTnnnnnn entry] ++ kvs *)
+
+Theorem C10_foam_header_pieces : foam_header = foam_banner ++ [c_lf] ++ foam_file_block ++ foam_rule ++ [c_lf].
+Proof. exact foam_header_split. Qed.
+Print Assumptions C10_foam_header_pieces.
+
+(* ---- (1) the banner and the FoamFile block ------------------------------------------------------------------------ *)
+(* Whenever the formatted body does not begin with the placeholder of a block comment of the table -- every SDict
+   without block comments, every SDict whose first entry is not a block comment placeholder -- the text IS the default
+   header (banner, FoamFile block, rule) followed by what the remaining passes make of the body; none of the later
+   passes (block comments further down, includes, line comments, trailing spaces) touches the header.
+   Any data (a FoamFile entry of the SDict's own is an ordinary entry: it is written a second time, further down:
+   C10_sd_banner_default_nonvacuous), any tables. *)
+Theorem C10_sd_banner_default : forall s, header_key (sd_bc s) (sd_foam_body s) = None ->
+  foam_to_string_sd s =
+  foam_header ++
+  remove_trailing_spaces (insert_line_comments (sd_lc s) (insert_includes foam_format_string (sd_inc s)
+    (insert_blocks foam_make_default_block_comment None (sd_bc s) [] (sd_foam_body s)))).
+Proof. exact sd_banner_default. Qed.
+Print Assumptions C10_sd_banner_default.
+
+Definition c10s_S (s : string) : tree := Leaf (SStr (of_string s)).
+Definition c10s_K (s : string) : key := KS (of_string s).
+Definition c10s_ph (w : str) (i : N) : key * tree := (KS (placeholder w i), Leaf (SStr (placeholder w i))).
+
+(* non-vacuity: a line comment first, a block comment further down (both in the tables), an underscore key, and a
+   FoamFile entry of the SDict's own, NOT first: the header with the default FoamFile block, then the body with the
+   own FoamFile block -- two FoamFile dicts in one file *)
+Definition c10s_own : sdict :=
+  mkSD [c10s_ph w_LINECOMMENT 7; (c10s_K "a", Leaf (SInt 1)); (c10s_K "_b", Leaf (SInt 2));
+        (c10s_K "FoamFile", Dict [(c10s_K "version", Leaf (SFloat (of_string "2.0"))); (c10s_K "class", c10s_S "volScalarField")]);
+        (c10s_K "sub", Dict [c10s_ph w_BLOCKCOMMENT 3])]
+       [(7, of_string "// seven")] [(3, of_string "/* three */")] [] [].
+Example C10_sd_banner_default_nonvacuous :
+  header_key (sd_bc c10s_own) (sd_foam_body c10s_own) = None /\
+  foam_to_string_sd c10s_own = foam_header ++ of_string
+"// seven
+a                             1;
+FoamFile
+{
+    version                   2.0;
+    class                     volScalarField;
+}
+sub
+{
+    /* three */
+}
+" /\
+  foam_to_string_sd c10s_own =
+  foam_header ++
+  remove_trailing_spaces (insert_line_comments (sd_lc c10s_own) (insert_includes foam_format_string (sd_inc c10s_own)
+    (insert_blocks foam_make_default_block_comment None (sd_bc c10s_own) [] (sd_foam_body c10s_own)))).
+Proof.
+  assert (H : header_key (sd_bc c10s_own) (sd_foam_body c10s_own) = None) by (vm_compute; reflexivity).
+  refine (conj H (conj _ (C10_sd_banner_default c10s_own H))). vm_compute. reflexivity.
+Qed.
+
+(* the same with the own FoamFile entry FIRST *)
+Example C10_sd_own_FoamFile_first :
+  let s := mkSD [(c10s_K "FoamFile", Dict [(c10s_K "class", c10s_S "volScalarField")]); (c10s_K "a", Leaf (SInt 1))] [] [] [] [] in
+  foam_to_string_sd s = foam_header ++ of_string
+"FoamFile
+{
+    class                     volScalarField;
+}
+a                             1;
+".
+Proof. vm_compute. reflexivity. Qed.
+
+(* The formatted body begins with the placeholder of the FIRST block comment of the table (what the reader returns for
+   a file that begins with a block comment) and that comment is not itself an OpenFOAM header: the default header is
+   put in front of it (it replaces it when the comment carries the C++ mark without the word OpenFOAM: the header of a
+   dictIO native file). *)
+Theorem C10_sd_banner_own_first : forall s i bc bcs, sd_bc s = (i, bc) :: bcs ->
+  header_key (sd_bc s) (sd_foam_body s) = Some i -> own_foam_header bc = false ->
+  exists rest, foam_to_string_sd s = foam_header ++ rest.
+Proof. exact sd_banner_own_first. Qed.
+Print Assumptions C10_sd_banner_own_first.
+
+Example C10_sd_banner_own_first_nonvacuous :
+  let s := mkSD [c10s_ph w_BLOCKCOMMENT 3; (c10s_K "a", Leaf (SInt 1))] [] [(3, of_string "/* mine */")] [] [] in
+  let t := mkSD [c10s_ph w_BLOCKCOMMENT 3; (c10s_K "a", Leaf (SInt 1))] [] [(3, removelast native_header)] [] [] in
+  (sd_bc s = [(3, of_string "/* mine */")] /\ header_key (sd_bc s) (sd_foam_body s) = Some 3 /\ own_foam_header (of_string "/* mine */") = false /\
+   foam_to_string_sd s = foam_header ++ of_string "/* mine */
+a                             1;
+" /\
+   exists rest, foam_to_string_sd s = foam_header ++ rest) /\
+  (* the header of a native file is replaced *)
+  (header_key (sd_bc t) (sd_foam_body t) = Some 3 /\ own_foam_header (removelast native_header) = false /\
+   foam_to_string_sd t = foam_header ++ of_string "
+a                             1;
+").
+Proof.
+  intros s t.
+  assert (H1 : sd_bc s = [(3, of_string "/* mine */")]) by reflexivity.
+  assert (H2 : header_key (sd_bc s) (sd_foam_body s) = Some 3) by (vm_compute; reflexivity).
+  assert (H3 : own_foam_header (of_string "/* mine */") = false) by (vm_compute; reflexivity).
+  refine (conj (conj H1 (conj H2 (conj H3 (conj _ (C10_sd_banner_own_first s 3 _ [] H1 H2 H3))))) _); vm_compute; repeat split; reflexivity.
+Qed.
+
+(* FINDINGS (the side conditions of the two theorems are needed; both agree with the Python code):
+   (a) a leading block comment that mentions " C++ " and "OpenFOAM" counts as the file's own header: NO banner and NO
+       FoamFile block are written -- "whenever an SDict is written it starts with the OpenFOAM banner and FoamFile
+       block" fails for it;
+   (b) the header comment is not the first of the table and an earlier table entry contains the text the header would
+       become: the "do not insert a block comment twice" rule drops the header; the text begins with an empty line. *)
+Example C10_sd_banner_finding_own_header :
+  let s := mkSD [c10s_ph w_BLOCKCOMMENT 3; (c10s_K "a", Leaf (SInt 1))] [] [(3, of_string "/* my C++ OpenFOAM */")] [] [] in
+  header_key (sd_bc s) (sd_foam_body s) = Some 3 /\ own_foam_header (of_string "/* my C++ OpenFOAM */") = true /\
+  foam_to_string_sd s = of_string "/* my C++ OpenFOAM */
+a                             1;
+" /\
+  contains (of_string "FoamFile") (foam_to_string_sd s) = false.
+Proof. vm_compute. repeat split; reflexivity. Qed.
+
+Example C10_sd_banner_finding_header_dropped :
+  let s := mkSD [c10s_ph w_BLOCKCOMMENT 0; c10s_ph w_BLOCKCOMMENT 1; (c10s_K "a", Leaf (SInt 1))] []
+                [(1, foam_header ++ of_string "/* X */"); (0, of_string "/* X */")] [] [] in
+  header_key (sd_bc s) (sd_foam_body s) = Some 0 /\ own_foam_header (of_string "/* X */") = false /\
+  foam_to_string_sd s = [c_lf] ++ foam_header ++ of_string "/* X */
+a                             1;
+" /\
+  starts_with foam_header (foam_to_string_sd s) = false.
+Proof. vm_compute. repeat split; reflexivity. Qed.
+
+(* ---- (3) no single-quoted literal on the SDict route ------------------------------------------------------------- *)
+(* scan_input / scan_count (FoamSdProofs): the text and the counter value Lexer.lex hands to its literal scanner (after
+   the comment, include and block comment passes and the removal of line endings).  For EVERY text the literal table of
+   the lexer is the one the scan of scan_input builds: *)
+Theorem C10_scan_input_is_lexers : forall comments dir count text,
+  lxd_lit (lex comments dir count text) =
+  snd (scan_literals (S (length (scan_input comments dir count text))) false (scan_count comments dir count text) [] []
+         (scan_input comments dir count text)).
+Proof. exact lex_lit_scan. Qed.
+Print Assumptions C10_scan_input_is_lexers.
+
+(* An SDict without comments and includes, data in the Foam writer domain: the lexer lifts the banner and the rule out
+   (what is scanned is  BLOCKCOMMENT000000 FoamFile { .. } LINECOMMENTnnnnnn  followed by the plain Foam text), the
+   scan (FoamProofs.scan_trace: scan_literals with a trace, C10_scan_trace_is_scanner) registers exactly the quoted
+   leaves of the written tree, in document order, every one by the DOUBLE-quote alternative. *)
+Theorem C10_sd_no_single_quote : forall s dirc count,
+  sd_lc s = [] -> sd_bc s = [] -> sd_inc s = [] -> foam_writable_tree (Dict (sd_data s)) = true ->
+  let text := foam_to_string_sd s in
+  let scanned := scan_input true dirc count text in
+  let run := scan_trace (S (length scanned)) false (scan_count true dirc count text) [] [] scanned in
+  scanned = remove_line_endings (hdr_mid (Z.to_N (counter_next count)) ++ foam_to_string_plain (sd_data s)) /\
+  scan_count true dirc count text = counter_next count /\
+  lxd_lit (lex true dirc count text) = snd (fst run) /\
+  snd run = map (fun x => (c_dq, dq x)) (qstrs (strip_us (Dict (sd_data s)))) /\
+  Forall (fun e => fst e = c_dq) (snd run).
+Proof. exact sd_literals_double_quoted. Qed.
+Print Assumptions C10_sd_no_single_quote.
+
+(* the text: the header (free of quote characters of either flavour) in front of a skeleton free of quote characters
+   whose holes are filled with the strings dq s *)
+Theorem C10_sd_text_shape : forall s, sd_lc s = [] -> sd_bc s = [] -> sd_inc s = [] -> foam_writable_tree (Dict (sd_data s)) = true ->
+  exists A, foam_to_string_sd s = foam_header ++ expandL (map dq (qstrs (strip_us (Dict (sd_data s))))) A /\
+            forallb (fun c => negb (is_quote c)) (foam_header ++ A) = true /\
+            nh A = length (qstrs (strip_us (Dict (sd_data s)))) /\
+            Forall (fun x => no_dq x = true) (qstrs (strip_us (Dict (sd_data s)))).
+Proof. exact sd_text_shape. Qed.
+Print Assumptions C10_sd_text_shape.
+
+(* the example SDict: a nested dict two deep, underscore keys at levels 1, 2 and 3 and inside a list, strings with
+   blanks, an apostrophe, a lone bracket, a number-like string, an int key *)
+Definition c10s_doc : list (key * tree) :=
+  [(c10s_K "_top", Leaf (SInt 1));
+   (c10s_K "keep", Dict [(c10s_K "_in", c10s_S "x y"); (c10s_K "a_b", c10s_S "two words");
+                         (c10s_K "n", Dict [(c10s_K "apo", c10s_S "it's"); (c10s_K "_deep", Leaf SNone)])]);
+   (c10s_K "l", Lst [Dict [(c10s_K "_x", Leaf SNone); (KI 5, c10s_S "(")]; c10s_S "12"; c10s_S "plain"])].
+Definition c10s_sd : sdict := mkSD c10s_doc [] [] [] [].
+(* what comes back as ordinary data *)
+Definition c10s_back : list (key * tree) :=
+  [(c10s_K "keep", Dict [(c10s_K "a_b", c10s_S "two words"); (c10s_K "n", Dict [(c10s_K "apo", c10s_S "it's")])]);
+   (c10s_K "l", Lst [Dict [(KI 5, c10s_S "(")]; Leaf (SInt 12); c10s_S "plain"])].
+
+Example C10_sd_no_single_quote_nonvacuous :
+  let text := foam_to_string_sd c10s_sd in
+  let scanned := scan_input true [] 7 text in
+  let run := scan_trace (S (length scanned)) false (scan_count true [] 7 text) [] [] scanned in
+  foam_writable_tree (Dict c10s_doc) = true /\
+  (* a single quote CHARACTER does occur in the text (the apostrophe) *)
+  has_char c_sq text = true /\ has_char c_sq foam_header = false /\
+  (* the beginning of what is scanned *)
+  take_n 49 scanned = of_string "BLOCKCOMMENT000000 FoamFile {     version        " /\
+  snd run = [(c_dq, of_string """two words"""); (c_dq, of_string """it's"""); (c_dq, of_string """(""")] /\
+  (scanned = remove_line_endings (hdr_mid 8 ++ foam_to_string_plain c10s_doc) /\
+   scan_count true [] 7 text = 8%Z /\
+   lxd_lit (lex true [] 7 text) = snd (fst run) /\
+   snd run = map (fun x => (c_dq, dq x)) (qstrs (strip_us (Dict c10s_doc))) /\
+   Forall (fun e => fst e = c_dq) (snd run)).
+Proof.
+  intros text scanned run.
+  assert (H : foam_writable_tree (Dict c10s_doc) = true) by (vm_compute; reflexivity).
+  refine (conj H (conj _ (conj _ (conj _ (conj _ (C10_sd_no_single_quote c10s_sd [] 7%Z eq_refl eq_refl eq_refl H)))))); vm_compute; reflexivity.
+Qed.
+
+(* ---- (1) again, for the domain of the property ------------------------------------------------------------------- *)
+(* Data in the Foam writer domain (no key of it can spell a placeholder), ANY tables: the default header is written. *)
+Theorem C10_sd_banner_domain : forall s, foam_writable_tree (Dict (sd_data s)) = true ->
+  foam_to_string_sd s =
+  foam_header ++
+  remove_trailing_spaces (insert_line_comments (sd_lc s) (insert_includes foam_format_string (sd_inc s)
+    (insert_blocks foam_make_default_block_comment None (sd_bc s) [] (sd_foam_body s)))).
+Proof. exact sd_banner_domain. Qed.
+Print Assumptions C10_sd_banner_domain.
+
+(* non-vacuity: the example data with tables that hold a line comment and a block comment that would count as an own
+   header (C10_sd_banner_finding_own_header) -- no entry refers to them, the default header is written *)
+Example C10_sd_banner_domain_nonvacuous :
+  let s := mkSD c10s_doc [(1, of_string "// one")] [(0, of_string "/* my C++ OpenFOAM */")] [] [] in
+  foam_writable_tree (Dict (sd_data s)) = true /\
+  foam_to_string_sd s = foam_header ++ foam_to_string_plain c10s_doc /\
+  foam_to_string_sd s =
+  foam_header ++
+  remove_trailing_spaces (insert_line_comments (sd_lc s) (insert_includes foam_format_string (sd_inc s)
+    (insert_blocks foam_make_default_block_comment None (sd_bc s) [] (sd_foam_body s)))).
+Proof.
+  intros s. assert (H : foam_writable_tree (Dict (sd_data s)) = true) by (vm_compute; reflexivity).
+  refine (conj H (conj _ (C10_sd_banner_domain s H))). vm_compute. reflexivity.
+Qed.
+
+(* ---- (2) the round trip on the SDict route ----------------------------------------------------------------------- *)
+(* An SDict without comments and includes whose data is in the Foam writer domain (C10_roundtrip) and has no top-level
+   key FoamFile: reading the written text back returns
+     data   BLOCKCOMMENT000000 -> itself;  FoamFile -> {version 2.0; format ascii; class dictionary; object foamDict};
+            LINECOMMENTnnnnnn -> itself (n = the next counter value);  then the data without its underscore keys (every
+            level, also inside lists), same keys, same order, every leaf as the classifier reads its written form;
+     line comments   {n: the rule};   block comments   {0: the banner};   no includes, no expressions.
+   Side conditions as in C10_roundtrip; no_FoamFile_key is needed for THIS statement (C10_sd_roundtrip_finding_own_FoamFile:
+   otherwise the FoamFile entry that comes back holds the fields of the SDict's own entry, not the documented ones). *)
+Theorem C10_sd_roundtrip : forall s dirc count,
+  sd_lc s = [] -> sd_bc s = [] -> sd_inc s = [] ->
+  wf (Dict (sd_data s)) = true -> foam_writable_tree (Dict (sd_data s)) = true -> no_FoamFile_key (sd_data s) = true ->
+  (-1 <= count)%Z -> (Z.of_nat (nq (Dict (sd_data s))) <= 1000000)%Z -> quoted_within 11 (Dict (sd_data s)) = true ->
+  exists count',
+  parse_string true dirc count (foam_to_string_sd s) =
+    Ok (mkParsed (mkSD (sd_reread_data (Z.to_N (counter_next count))
+                          (kvs_of (map_leaves foam_written_value (strip_us (Dict (sd_data s))))))
+                       [(Z.to_N (counter_next count), foam_rule)] [(0, foam_banner)] [] []) count').
+Proof. exact roundtrip_foam_sd. Qed.
+Print Assumptions C10_sd_roundtrip.
+
+Example C10_sd_roundtrip_nonvacuous :
+  (* the hypotheses *)
+  wf (Dict c10s_doc) = true /\ foam_writable_tree (Dict c10s_doc) = true /\ no_FoamFile_key c10s_doc = true /\
+  (Z.of_nat (nq (Dict c10s_doc)) <= 1000000)%Z /\ quoted_within 11 (Dict c10s_doc) = true /\
+  has_us_key (Dict c10s_doc) = true /\
+  (* the written text: it begins with the banner ... *)
+  take_n 80 (foam_to_string_sd c10s_sd) =
+    of_string "/*--------------------------------*- C++ -*----------------------------------*\
+" /\
+  foam_to_string_sd c10s_sd = foam_header ++ of_string
+"keep
+{
+    a_b                       ""two words"";
+    n
+    {
+        apo                   ""it's"";
+    }
+}
+l
+(
+
+    {
+        5                     ""("";
+    }
+    12                plain
+);
+" /\
+  (* computed *)
+  parse_string true [] 7 (foam_to_string_sd c10s_sd) =
+    Ok (mkParsed (mkSD ([c10s_ph w_BLOCKCOMMENT 0; (c10s_K "FoamFile", foam_file_dict); c10s_ph w_LINECOMMENT 8] ++ c10s_back)
+                       [(8, foam_rule)] [(0, foam_banner)] [] []) 11) /\
+  kvs_of (map_leaves foam_written_value (strip_us (Dict c10s_doc))) = c10s_back /\
+  (* by the theorem *)
+  (exists count', parse_string true (of_string "/some/dir") 41 (foam_to_string_sd c10s_sd) =
+     Ok (mkParsed (mkSD (sd_reread_data 42 (kvs_of (map_leaves foam_written_value (strip_us (Dict c10s_doc)))))
+                        [(42, foam_rule)] [(0, foam_banner)] [] []) count')).
+Proof.
+  assert (H1 : wf (Dict c10s_doc) = true) by (vm_compute; reflexivity).
+  assert (H2 : foam_writable_tree (Dict c10s_doc) = true) by (vm_compute; reflexivity).
+  assert (H3 : no_FoamFile_key c10s_doc = true) by (vm_compute; reflexivity).
+  assert (H4 : (Z.of_nat (nq (Dict c10s_doc)) <= 1000000)%Z) by (vm_compute; discriminate).
+  assert (H5 : quoted_within 11 (Dict c10s_doc) = true) by (vm_compute; reflexivity).
+  refine (conj H1 (conj H2 (conj H3 (conj H4 (conj H5 (conj _ (conj _ (conj _ (conj _ (conj _ _)))))))))); try (vm_compute; reflexivity).
+  exact (C10_sd_roundtrip c10s_sd (of_string "/some/dir") 41%Z eq_refl eq_refl eq_refl H1 H2 H3 ltac:(discriminate) H4 H5).
+Qed.
+
+(* FINDING: the SDict carries a FoamFile entry of its own (as every SDict read from an OpenFOAM file does, unless the
+   file's banner is kept as its header: C10_sd_banner_finding_own_header).  Two FoamFile dicts are written; on reading,
+   the second replaces the value of the first: the entry that comes back holds the OWN fields only (format and object are
+   gone), in the position of the header's entry; the rest of the data is as in the theorem. *)
+Example C10_sd_roundtrip_finding_own_FoamFile :
+  let own := Dict [(c10s_K "version", Leaf (SFloat (of_string "2.0"))); (c10s_K "class", c10s_S "volScalarField")] in
+  let d := [(c10s_K "a", Leaf (SInt 1)); (c10s_K "FoamFile", own); (c10s_K "b", c10s_S "x y")] in
+  let s := mkSD d [] [] [] [] in
+  wf (Dict d) = true /\ foam_writable_tree (Dict d) = true /\ no_FoamFile_key d = false /\
+  parse_string true [] 7 (foam_to_string_sd s) =
+    Ok (mkParsed (mkSD [c10s_ph w_BLOCKCOMMENT 0; (c10s_K "FoamFile", own); c10s_ph w_LINECOMMENT 8;
+                        (c10s_K "a", Leaf (SInt 1)); (c10s_K "b", c10s_S "x y")]
+                       [(8, foam_rule)] [(0, foam_banner)] [] []) 9).
+Proof. vm_compute. repeat split; reflexivity. Qed.
